@@ -500,6 +500,8 @@ func generate(seed int64, thorough bool) []string {
 		o = append(o, ln("bg", fmt.Sprint(seed*100+int64(c)), strconv.Itoa(2+r.Intn(6)), strconv.Itoa(1+r.Intn(3)), strconv.Itoa(1+r.Intn(4)),
 			strconv.Itoa(250+250*(mul/8)), strconv.Itoa([]int{300, 1000, 5000, 600000, 2000000}[r.Intn(5)])))
 		o = append(o, ln("st", fmt.Sprint(seed*100+int64(c)), strconv.Itoa(2+r.Intn(14)), strconv.Itoa(200*mul)))
+		// concurrent first users of fresh txn scopes: rounds, wall-clock effort budget (ms)
+		o = append(o, ln("fs", fmt.Sprint(seed*100+int64(c)), strconv.Itoa(4000*mul), strconv.Itoa(1500+500*(mul/8))))
 	}
 	_ = time.Now
 	return o
